@@ -710,3 +710,65 @@ def r9(R):
                         '.'.join(str(x) for x in op.path)))
     R.require(n >= 2, 'ObjectReader no longer builds readers for '
               'cross-database references')
+
+
+# ------------------------------------------------------------------ C14.R10
+@rule('C14.R10', 'a weak reference the reader builds has what the writer '
+      'reads from it when it is stored again (sibling agreement between '
+      'load_persistent_weakref and the weak-reference branch of '
+      'persistent_id)', min_instances=1)
+def r10(R):
+    w = R.prog.cls(WRITER)
+    pid = R.method(w, 'persistent_id')
+    # what the writer reads from a weak reference it is given
+    reads = set()
+    for x in walk_local(pid.node):
+        if isinstance(x, ast.Attribute) and isinstance(
+                x.ctx, ast.Load) and isinstance(x.value, ast.Name) and \
+                x.value.id in pid.params and x.attr in (
+                    'oid', 'database_name'):
+            reads.add(x.attr)
+    R.require('oid' in reads, 'persistent_id no longer reads the oid of a '
+              'weak reference')
+    rd = R.prog.cls(READER)
+    f = R.method(rd, 'load_persistent_weakref')
+    g, b, F = R.cfg(f, rd, max_depth=0)
+    R.instance('ObjectReader.load_persistent_weakref', writer_reads=sorted(
+        reads))
+    newobj = None
+    for a in walk_local(f.node):
+        if isinstance(a, ast.Assign) and isinstance(
+                a.targets[0], ast.Name) and isinstance(a.value, ast.Call) \
+                and '__new__' in ast.unparse(a.value.func):
+            newobj = a.targets[0].id
+    R.require(newobj is not None, 'load_persistent_weakref no longer '
+              'creates the reference object')
+
+    def edge(node, st, lab, tgt):
+        if lab in ('e', 'eb'):
+            return st
+        for op in F.ops(node):
+            if op.kind == 'store' and isinstance(op.ast, ast.Attribute) and \
+                    isinstance(op.ast.value, ast.Name) and \
+                    op.ast.value.id == newobj:
+                st = st | {op.ast.attr}
+        return st
+
+    def at(node, st):
+        if node.kind == 'return' and node.frame.parent is None:
+            missing = reads - st
+            if missing:
+                return Violation(
+                    'load_persistent_weakref returns a weak reference '
+                    'without %s, which ObjectWriter.persistent_id reads '
+                    'when the reference is stored again: re-storing a '
+                    'loaded same-database weak reference from an object of '
+                    'another database fails (AttributeError) instead of '
+                    'writing the cross-database form' % ', '.join(
+                        sorted(missing)))
+        return st
+
+    vs, stats = explore(g, frozenset(), at=at, edge=edge)
+    R.count(stats)
+    for v in vs:
+        R.violation(v.node, v.message, g, v.path)
